@@ -43,6 +43,10 @@ func init() {
 	generators["C14"] = genHuge
 	generators["C20"] = genHandles
 	generators["C16"] = genRace
+	generators["C18"] = genSeqinfo
+	generators["C17"] = genSeqls
+	operations["seqls"] = opSeqls
+	operations["seqinfo"] = opSeqinfo
 	operations["huge"] = opHuge
 	generators["C06"] = genDiskScan
 	generators["C07"] = genDiskFind
